@@ -473,6 +473,8 @@ func presentButEmpty(t *TyDef) *Val {
 			}
 		}
 		return out
+	case "ext":
+		return &Val{K: "p", P: zeroVal(extPayload[u.Name])} // valid, with the zero payload
 	}
 	return zeroVal(t)
 }
@@ -638,6 +640,15 @@ func runC12(r *Runner, g *Gen, tier string) string {
 		// a default-mode instance reads the repeated-field form of slices
 		r.Do(L(A("xdec"), A("01"), A("00"), t.Sexp(), v.Sexp()), nontrivialVal(t, v), "xdec.01-00")
 		r.Do(L(A("xdec"), A("11"), A("10"), t.Sexp(), v.Sexp()), nontrivialVal(t, v), "xdec.11-10")
+	}
+	// what must not be accepted in these modes is not: slices and maps of (pointers to pointers to …) slices
+	for _, cfg := range []string{"01", "11"} {
+		for _, inner := range []*TyDef{B("str"), Struct(F("A", "1", B("int"))), {K: "time"}} {
+			for _, t := range []*TyDef{Slice(Slice(inner)), Slice(Ptr(Slice(inner))), Slice(Ptr(Ptr(Slice(inner)))), Slice(Ptr(Ptr(Ptr(Slice(inner))))),
+				Map(B("str"), Ptr(Ptr(Slice(inner)))), Map(B("str"), Slice(inner))} {
+				r.Do(codecOp("build", cfg, Struct(F("A", "1", t)), "", A("5")), true, "build.nested-proto")
+			}
+		}
 	}
 	// null types under both options (read back by the independent protobuf reader)
 	for i := 0; i < n/10; i++ {
